@@ -72,7 +72,9 @@ class CollExec(Exec):
         low = [s[0].lower() for s in self.model]
         before, dims = self.observed(), self.dims()
         kwargs = {}
-        if table_name is not None:
+        if table_name == "<explicit None>":
+            kwargs["table_name"] = table_name = None   # an unnamed first table, asked for explicitly (the signature allows None)
+        elif table_name is not None:
             kwargs["table_name"] = table_name
         if name is not None and name.lower() in low:
             self.flags.add("refusal")
@@ -95,6 +97,9 @@ class CollExec(Exec):
                 self.fail(("auto_name_series", "sheet"), f"add_sheet() chose {new!r}, not of the series 'Sheet N'")
         elif new != name:
             self.fail(("wrong_name", "sheet"), f"add_sheet({name!r}) produced a sheet named {new!r}")
+        tname = self.doc.sheets[len(self.model)].tables[0].name
+        if tname != (table_name if table_name is not None else "Table 1"):
+            self.fail(("wrong_name", "first_table"), f"add_sheet(..., table_name={table_name!r}) produced a first table named {tname!r}")
         self.model.append([new, [table_name if table_name is not None else "Table 1"]])
         self.flags.add("added")
         self.check_state("add_sheet")
@@ -219,7 +224,7 @@ def make_machine(ctx):
         def nsheets(self):
             return len(self.ex.model)
 
-        @rule(name=st.none() | names, table_name=st.none() | st.sampled_from(["Table 1", "T", "table 9"]))
+        @rule(name=st.none() | names, table_name=st.none() | st.sampled_from(["Table 1", "T", "table 9", "<explicit None>"]))
         def add_sheet(self, name, table_name):
             if self.nsheets() >= 6 and not (name is not None and name.lower() in [s[0].lower() for s in self.ex.model]):
                 return
